@@ -828,6 +828,10 @@ def Array(
                 if issubclass(cls.element_type, BitArrayType):
                     chunk_size = cls.element_type.size * 8
                     _len = len(values) // chunk_size
+                    if not isinstance(_length, int) and len(values) % chunk_size:
+                        raise DataError(
+                            f"boolean arrays must be a multiple of {chunk_size}: not {len(values)}"
+                        )
                     if length is None and isinstance(cls.length, int):
                         # fixed array of bit strings: length counts elements, not bools
                         if _len < cls.length:
